@@ -212,6 +212,10 @@ func libCall(e *Exec, st *State, fr *Frame, callee *ssa.Function, args []*Value,
 		rv := UF("rv_of", SRV, args[0].One())
 		// reflect.ValueOf(nil) is the zero Value; every other argument gives a valid one
 		st.Assume(Eq(rvIsValid(rv), Not(Eq(args[0].One(), VNil))))
+		// its Kind is the kind of the dynamic type (Invalid for the zero Value); a non-nil interface has a type
+		rtv := rtypeOfVal(args[0].One())
+		st.Assume(Eq(UF(sanitize("(reflect.Value).Kind")+"_00", SBV(64), rv), Ite(Eq(args[0].One(), VNil), BV64(0), rtKind(rtv))))
+		st.Assume(Eq(Eq(rtv, IntLit(0)), Eq(args[0].One(), VNil)))
 		k(st, []*Value{valOf(sig.Results().At(0).Type(), rv)})
 		return true
 	}
